@@ -51,8 +51,6 @@ def validate_scheme(run, obj, arguments, label=None):
         label = label or "%s(order=%s)" % (cls, order)
         tol = TABLE_TOL[cls]
         measure = 1.0 / math.factorial(dim)
-        if cls == "Tetrahedron" and order == 2:
-            tol = 5e-8  # table given to 8 digits
         inside = max(maxabs(np.minimum(pts, 0)), max(0.0, float((pts.sum(1) - 1).max())))
         run.compare(mon, "scheme=%s clause=inside" % label, inside, 1e-12,
                     "%s: a point lies outside the closed reference simplex" % label, unit=label + ":inside",
